@@ -365,6 +365,31 @@ def manual_specs() -> list[dict]:
     return out
 
 
+def frontend_specs() -> list[dict]:
+    """The tree is built and run by the library's documented front end hms(level_config, gsc, sprout_cond, options); the
+    recorder first sees it at the loop-head consult of run()."""
+    out = []
+    base = {"dim": 2, "box": "sym"}
+    rows = [
+        ([{"engine": "SEA", "pop": 8, "gens": 2}, {"engine": "CMA", "gens": 3, "lsc": {"kind": "MetaepochLimit", "n": 3}}],
+         {"kind": "simple", "far": 0.05, "limit": 3}),
+        ([{"engine": "DE", "pop": 8, "gens": 1}, {"engine": "SEA", "pop": 5, "gens": 2, "lsc": {"kind": "MetaepochLimit", "n": 2}}, {"engine": "LOCAL", "maxiter": 3}],
+         {"kind": "nbc", "gen": 1.0, "trunc": 1.0, "fil": 0.5, "limit": 2}),
+        ([{"engine": "SHADE", "pop": 8, "gens": 1, "mem": 3}, {"engine": "DE", "pop": 6, "gens": 2, "lsc": {"kind": "MetaepochLimit", "n": 3}}],
+         {"kind": "nbc", "gen": 1.0, "trunc": 1.0, "fil": 0.5, "limit": 3}),
+        ([{"engine": "LHS", "pop": 12}, {"engine": "SEA", "pop": 6, "gens": 2, "lsc": {"kind": "MetaepochLimit", "n": 4}}],
+         {"kind": "simple", "far": 0.1, "limit": 2}),
+    ]
+    n = 0
+    for levels, sprout in rows:
+        for hib in (False, True):
+            n += 1
+            gsc = [{"kind": "MetaepochLimit", "n": 6}, {"kind": "SingularEvalLimit", "n": 160}, {"kind": "WeightedEvalLimit", "n": 150, "w": "equal"}][n % 3]
+            out.append(dict(base, name=f"hms{n}", seed=1900 + n, levels=[dict(l) for l in levels], sprout=dict(sprout), gsc=gsc, drive=["hms"],
+                            hibernation=hib, fn=["multi", "funnels", "plateau", "zero"][n % 4], maximize=(n % 3 == 0), idlecheck=not hib))
+    return out
+
+
 def penalty_specs() -> list[dict]:
     """An objective that answers the worst infinity on part of the box ("death penalty"): these are real evaluations -
     counted, charged to budgets, stored with their true fitness - although they look like a budget wrapper's refusals."""
@@ -598,7 +623,7 @@ def long_specs(tier: str = "quick") -> list[dict]:
 
 def gen_specs(seed: int, n_random: int, tier: str = "quick") -> list[dict]:
     r = random.Random(seed)
-    specs = repo_test_specs() + sweep_specs(tier) + lifecycle_specs() + engine_specs() + init_specs() + manual_specs() + penalty_specs() + tiny_specs() + partial_specs() + fidelity_specs() + adaptive_specs() + big_specs(tier) + user_specs() + long_specs(tier)
+    specs = repo_test_specs() + sweep_specs(tier) + lifecycle_specs() + engine_specs() + init_specs() + manual_specs() + frontend_specs() + penalty_specs() + tiny_specs() + partial_specs() + fidelity_specs() + adaptive_specs() + big_specs(tier) + user_specs() + long_specs(tier)
     for i in range(n_random):
         specs.append(random_spec(r, i))
     return specs
